@@ -3,6 +3,8 @@ package props
 import (
 	"errors"
 	"fmt"
+	rProto "github.com/thomasjungblut/go-sstables/recordio/proto"
+	sProto "github.com/thomasjungblut/go-sstables/sstables/proto"
 	"io"
 	"math/rand"
 	"os"
@@ -182,11 +184,29 @@ func c19DBDriven(c *fw.Case) {
 				return
 			}
 		}
+		what := "driven-session"
+		if r.Intn(2) == 0 {
+			// wipe-out ending: every key is deleted and the compactor runs until nothing changes any more — a table with
+			// zero records can then be live at Close (and is found again by the next session)
+			for k := 0; k < 12; k++ {
+				_ = db.Delete(fmt.Sprintf("k%d", k))
+			}
+			if db.VerifForceRotate() == nil && waitFlushIdle(60*time.Second) {
+				for i := 0; i < 4; i++ {
+					if _, err := db.VerifCompactOnce(); err != nil {
+						c.Violate("resources/compaction-error", "%v", err)
+						return
+					}
+				}
+			}
+			what = "driven-session+wipe-out"
+			c.Obs("sessions_ending_with_everything_deleted_and_compacted", 1)
+		}
 		if err := db.Close(); err != nil {
 			c.Violate("resources/close-error", "%v", err)
 			return
 		}
-		if !afterCloseCensus(c, dir, "driven-session", fmt.Sprintf("session %d [%s]", session, opts)) {
+		if !afterCloseCensus(c, dir, what, fmt.Sprintf("session %d [%s]", session, opts)) {
 			return
 		}
 		censuses++
@@ -408,7 +428,7 @@ func c19Readers(c *fw.Case) {
 	}
 	steps := 15 + r.Intn(20)
 	for s := 0; s < steps; s++ {
-		op := r.Intn(10)
+		op := r.Intn(11)
 		if op == 8 && len(legacy) == 0 {
 			op = 0
 		}
@@ -560,6 +580,35 @@ func c19Readers(c *fw.Case) {
 			runtime.KeepAlive(members) // (descriptors and mappings carry finalizers: keep them reachable until counted)
 			runtime.KeepAlive(super)
 			if !ok {
+				return
+			}
+		case 10: // the protobuf record writer (Path option; plain, compressed, and direct I/O on a real file system)
+			pdir := dir
+			var popts []rProto.WriterOption
+			what := "proto-writer"
+			if r.Intn(2) == 0 {
+				pdir = c.DiskDir()
+				popts = append(popts, rProto.DirectIO())
+				what += "+directio"
+				c.Obs("proto_writers_with_direct_io", 1)
+			}
+			if r.Intn(2) == 0 {
+				popts = append(popts, rProto.CompressionType(1+r.Intn(3)))
+			}
+			pw, err := rProto.NewWriter(append(popts, rProto.Path(filepath.Join(pdir, "p.rio")))...)
+			if err == nil && pw.Open() == nil {
+				for i := 0; i < r.Intn(4); i++ {
+					_, _ = pw.Write(&sProto.IndexEntry{Key: []byte("k"), ValueOffset: uint64(i)})
+				}
+			}
+			if pw != nil {
+				_ = pw.Close()
+			}
+			cs := takeCensus(pdir)
+			c.Obs("censuses", 1)
+			runtime.KeepAlive(pw)
+			if len(cs.fds) > 0 || len(cs.maps) > 0 {
+				c.Violate("resources/descriptor-left-after-close/"+what, "after %s and Close: descriptors %v mappings %v", what, cs.fds, cs.maps)
 				return
 			}
 		case 8: // legacy-format table: full scans (complete / abandoned / untouched), then Close
